@@ -10,7 +10,7 @@ git -C "$S/repo" fetch -q origin && git -C "$S/repo" checkout -q --detach origin
 git -C "$S/repo" checkout -q -- . ; git -C "$S/repo" reset -q --hard "$(git -C /repo rev-parse HEAD)"
 mkdir -p "$S/verif"
 rsync -a --delete --exclude target --exclude evidence --exclude replays --exclude .git /verif/ "$S/verif/"
-sed -i "s|path = \"/repo\"|path = \"$S/repo\"|" "$S/verif/harness/Cargo.toml"
+sed -i "s|path = \"/repo\"|path = \"$S/repo\"|" "$S/verif/harness/Cargo.toml" "$S/verif/harness/probe/Cargo.toml"
 cp /repo/Cargo.lock "$S/verif/harness/Cargo.lock" 2>/dev/null
 cd "$S/verif" && VERIF_REPO="$S/repo" ./check selftest "$@"
 cp "$S/verif/selftest_results.json" "/verif/selftest_results${VERIF_SEED:+.seed$VERIF_SEED}.json"
